@@ -38,6 +38,17 @@ ORDER = {
 ALL = ["C%02d" % i for i in range(1, 20)]
 LATE = ["C03", "C12"]
 
+def run_suite(n, patch):
+    repo = os.path.join(labtool.lab(n), "repo")
+    labtool.sh("git checkout -- .", cwd=repo)
+    labtool.sh(["git", "apply", patch], cwd=repo)
+    try:
+        rc, out = labtool.sh("cargo test --offline -j 4 -- --test-threads 4 2>&1 | grep -E 'test result|panicked|FAILED' | head -5", cwd=repo, env=dict(os.environ, CARGO_NET_OFFLINE="true"), timeout=1800)
+    except subprocess.TimeoutExpired:
+        out = "suite timeout"
+    labtool.sh("git checkout -- .", cwd=repo)
+    return out.strip()[:300]
+
 def worker(n, q, outp, lock, mutdir):
     while True:
         try:
@@ -50,7 +61,16 @@ def worker(n, q, outp, lock, mutdir):
         rest = [c for c in ALL if c not in order and c not in LATE] + [c for c in LATE if c not in order]
         rec = dict(m, checks=[], caught_by=None)
         status = None
+        suite_line = None
         for phase, ids in (("primary", order), ("rest", rest)):
+            if phase == "rest" and not status:
+                # before spending ~20 minutes on the remaining checks: a mutant the crate's own suite kills
+                # is not a change this task is about
+                suite_line = run_suite(n, patch)
+                if "60 passed; 0 failed" not in suite_line:
+                    rec["suite"] = suite_line
+                    status = "missed-by-primary-but-suite-kills"
+                    break
             for cid in ids:
                 r = labtool.run_checks(n, patch, "quick", [cid], timeout=1200)[0]
                 rec["checks"].append(dict(id=cid, verdict=r["verdict"], wall=r["wall"], first=r["first"][:200]))
@@ -68,16 +88,8 @@ def worker(n, q, outp, lock, mutdir):
             if status:
                 break
         if not status:
-            # nobody caught it: does the crate's own suite kill it?
-            repo = os.path.join(labtool.lab(n), "repo")
-            labtool.sh("git checkout -- .", cwd=repo)
-            labtool.sh(["git", "apply", patch], cwd=repo)
-            try:
-                rc, out = labtool.sh("cargo test --offline -j 4 -- --test-threads 4 2>&1 | grep -E 'test result|panicked|FAILED' | head -5", cwd=repo, env=dict(os.environ, CARGO_NET_OFFLINE="true"), timeout=1800)
-            except subprocess.TimeoutExpired:
-                out = "suite timeout"
-            labtool.sh("git checkout -- .", cwd=repo)
-            rec["suite"] = out.strip()[:300]
+            out = suite_line or run_suite(n, patch)
+            rec["suite"] = out
             inconc = [c["id"] for c in rec["checks"] if c["verdict"] not in ("held",)]
             if "60 passed; 0 failed" in out:
                 status = "SURVIVED-ALL (suite passes)" + (" inconclusive:" + ",".join(inconc) if inconc else "")
